@@ -213,12 +213,29 @@ def run_case(case, rep, record=True):
                     # must not change A'.  Whether an environment CAN be copied is not C19's business.
                     import copy
                     import pickle
+                    if B[0] is not None and fop[2] % 2:
+                        B[0].generate_initial_state()        # (the other environment was the last one to build a state)
                     try:
                         twin = copy.deepcopy(envA) if fop[1] == "deepcopy" else pickle.loads(pickle.dumps(envA))
+                        twinB = None
+                        if B[0] is not None:
+                            twinB = copy.deepcopy(B[0]) if fop[1] == "deepcopy" else pickle.loads(pickle.dumps(B[0]))
                     except Exception:
                         if record:
                             rep.count("copy-not-supported:" + fop[1])
                         continue
+                    # a copy is an environment in the state of its original: it reads like its original, whatever
+                    # other environments (and copies of them) exist
+                    for orig, cp, who in ((envA, twin, "A'"), (B[0], twinB, "B")):
+                        if cp is None:
+                            continue
+                        seen = view(cp, False)      # (the copy first: reading the original re-initialises shared layout)
+                        k_ = first_diff(view(orig, False), seen)
+                        if k_ is not None:
+                            raise Failure(f"C19:copy:{k_}", f"a {fop[1]} copy of {who} made while other environments exist reads "
+                                          f"differently from {who} itself ({k_})", bucket=f"C19:copy:{k_}")
+                    if twinB is not None:
+                        third.append(twinB)
                     for j in range(fop[2]):
                         np.random.seed(fop[3] + j)
                         if hasattr(twin.action_space, "n"):
